@@ -135,4 +135,16 @@ theorem map_map_fst {β γ : Type} (l : List (Nat × β)) (f : Nat → β → γ
     (l.map (fun p => (p.1, f p.1 p.2))).map (·.1) = l.map (·.1) := by
   simp [List.map_map]
 
+theorem deployed_not_system (d : Diff) (hwf : d.WF) (a : Addr) (h : a ∈ d.deployed.map (·.1)) : isSystem a = false := by
+  cases hs : isSystem a with
+  | false => rfl
+  | true => exact absurd h (hwf.noSys a hs).1
+
+/-- queries about contracts that enter the state through `DeployedContracts`, and about classes -/
+def Query.ordinary : Query → Prop
+  | .classHash a => isSystem a = false
+  | .nonce a => isSystem a = false
+  | .storage a _ => isSystem a = false
+  | .cls _ => True
+
 end Juno.C03
